@@ -1,10 +1,12 @@
 CONSTANT MaxLang = 3
 CONSTANT Shapes = {"empty", "short", "edge", "real"}
 CONSTANT RuleShapes = {"empty", "short", "edge", "real"}
+CONSTANT P2Shapes = {"empty", "short", "edge", "real"}
 INIT Init
 NEXT Next
 INVARIANT ViewShape
 INVARIANT Wrapping
 INVARIANT Distinct
 INVARIANT RuleShape
+INVARIANT FlagIrrelevant
 POSTCONDITION AllCasesVisited
